@@ -20,11 +20,26 @@ CHUNK = 8
 
 
 def plan(tier):
-    return c03.plan(tier)
+    from props import c16
+    return c03.plan(tier) + [("pkt:" + f, n) for f, n in c16.plan(tier)]
 
 
-generate = c03.generate
-run = c03.run
+def generate(family, rng, tier):
+    if family.startswith("pkt:"):
+        from props import c16
+        scn = c16.generate(family[4:], rng, tier)
+        scn["family"] = family
+        return scn
+    return c03.generate(family, rng, tier)
+
+
+def run(scn):
+    if scn["family"].startswith("pkt:"):
+        from props import c16
+        s2 = dict(scn)
+        s2["family"] = scn["family"][4:]
+        return c16.run(s2)
+    return c03.run(scn)
 
 
 def known_match(scn, v):
